@@ -1,17 +1,17 @@
 import HdVerif.Model.SegMeta
 /-! C02 helper lemmas: segment metadata search. -/
 namespace HdVerif.SegMetaLemmas
-open HdVerif HdVerif.SegMeta
+open HdVerif HdVerif.Gen HdVerif.SegMeta
 
-theorem numberFilterFuncs_all (f : Filter) (ppv : Option Nat) (d : Desc) :
-    ((numberFilterFuncs f ppv).all fun g => g d) = (matchesFilter f d && !isBackground ppv d) := by
+theorem numberFilterFuncs_all (m : Mapping) (f : Filter) (ppv : Option Nat) (d : Desc) :
+    ((numberFilterFuncs m f ppv).all fun g => g d) = (matchesFilter m f d && !isBackground ppv d) := by
   unfold numberFilterFuncs matchesFilter isBackground
   cases f.label <;> cases f.category <;> cases f.ptype <;> cases f.algo <;> cases f.trackingUid <;>
     cases f.trackingId <;> cases ppv <;> simp [Bool.and_assoc, bne]
 
-theorem trackingFilterFuncs_all (f : Filter) (d : Desc)
+theorem trackingFilterFuncs_all (m : Mapping) (f : Filter) (d : Desc)
     (h : f.label = none ∧ f.trackingUid = none ∧ f.trackingId = none) :
-    ((trackingFilterFuncs f).all fun g => g d) = matchesFilter f d := by
+    ((trackingFilterFuncs m f).all fun g => g d) = matchesFilter m f d := by
   unfold trackingFilterFuncs matchesFilter
   rw [h.1, h.2.1, h.2.2]
   cases f.category <;> cases f.ptype <;> cases f.algo <;> simp [Bool.and_assoc]
